@@ -796,7 +796,7 @@ def _deep_eq(a, b):
             bi = tuple(b.items) if hasattr(b, "items") else tuple(b)
             if len(ai) != len(bi):
                 return False
-            return Engine.And(*[_deep_eq(x, y) for x, y in zip(ai, bi)])
+            return Engine.And(*[_deep_eq(x, y) for x, y in zip(ai, bi) if x is not y])
         return False
     if isinstance(a, SymIP) or isinstance(b, SymIP):
         pa = a.packed if isinstance(a, (SymIP, ipaddress.IPv4Address, ipaddress.IPv6Address)) else None
